@@ -510,9 +510,9 @@ func iriVariants(iri string, salt int) []string {
 	}
 	hp, ext := rest[:dot], rest[dot+1:]
 	out := []string{
-		p + "1" + hp + "." + ext,     // extra leading zero byte in base58
-		p + hp + "." + ext + ".",     // extra dot
-		p + hp + "..",                // empty extension
+		p + "1" + hp + "." + ext, // extra leading zero byte in base58
+		p + hp + "." + ext + ".", // extra dot
+		p + hp + "..",            // empty extension
 		p + hp + "." + strings.ToUpper(ext),
 		"REGEN:" + rest,
 		p + strings.ToLower(hp) + "." + ext,
